@@ -447,7 +447,7 @@ class DoubleFree:
                     lhs, rn = norm(e.kid(0)), norm(e.kid(1))
                     while rn[0] == "=" and len(rn) == 3:
                         rn = rn[1]
-                    if lhs[0] == "v" and rn[0] == "v" and lhs != rn and (f.unit.types.get(e.kid(0).ty) or {}).get("kind") == "ptr":
+                    if lhs[0] == "v" and rn[0] in ("v", ".") and _pure(rn) and trackable(rn) and lhs != rn and (f.unit.types.get(e.kid(0).ty) or {}).get("kind") == "ptr":
                         w = (w[0] | frozenset([("alias", lhs, rn, 0)]), w[1], w[2])
                 return w
             if e.cls == "CallExpr" and e.callee:
@@ -573,7 +573,7 @@ class DoubleFree:
             elif e.cls == "ReturnStmt" and e.kids and e.kid(0) is not None:
                 cands.append(norm(e.kid(0)))
             for n in cands:
-                if n[0] != "v":
+                if n[0] not in ("v", "."):
                     continue
                 first = freed_here(st, n, None)
                 if first is not None:
